@@ -1,10 +1,10 @@
 INIT Init
 NEXT Next
-CONSTANT Alphabet = {0, 1, 2, 3, 5, 6, 128, 129, 254, 255}
-CONSTANT MaxLen = 8
-CONSTANT EagerLen = 4
+CONSTANT Alphabet = {0, 1, 2, 3, 4, 5, 6, 7, 128, 129, 130, 192, 254, 255}
+CONSTANT MaxLen = 6
+CONSTANT EagerLen = 3
 CONSTANT TreeDepth = 2
-CONSTANT PathMax = 5
+CONSTANT PathMax = 6
 CONSTANT EmitCases = TRUE
 INVARIANT TotalDeterministic
 INVARIANT StackDiscipline
